@@ -146,6 +146,9 @@ def _run_path(eng, fi, c, case, rep, suffix):
                 for label, term in eng.spec_terms(pred, env2):
                     eng.oblige(f'post:{label}', term, kind='post', props=[tag])
                     eng.assume(term)        # staged: a clause, once an obligation, is a hypothesis for the later ones
+        for chk in (c.effects_check or []):
+            from . import hooks as _hooks
+            _hooks.EFFECT_CHECKS[chk](eng, env)
         eng.frame_check(eng.pre_state, c.modifies, env, 'normal', c.frame_props or c.props)
     else:
         ex = outcome[1]
